@@ -230,7 +230,7 @@ def run_one(h, slot, tier_cap, mem_kb):
     # first without concrete playback (asking for it makes the formula about three times larger);
     # a harness that fails is run again with playback to obtain the counterexample values
     cmd = build_cmd(False)
-    rc, out, dt = sh(["bash", "-c", f"ulimit -v {mem_kb}; exec \"$@\"", "x"] + cmd,
+    rc, out, dt = sh(["bash", "-c", f"ulimit -s unlimited 2>/dev/null; ulimit -v {mem_kb}; exec \"$@\"", "x"] + cmd,
                      timeout=tmo + 900, cwd=HARNESS_DIR)
     first = parse_kani(out).get(h["qual"])
     if first is not None and first["status"] == "FAILED" and first["failed"]:
@@ -242,7 +242,7 @@ def run_one(h, slot, tier_cap, mem_kb):
         text += (f"$ {' '.join(cmd)}\n[rc={rc} {dt:.1f}s] FAILED: {first['failed'][:5]}\n"
                  + "\n".join(fail_blocks[:12]) + "\n-> re-running with concrete playback\n")
         cmd = build_cmd(True)
-        rc, out, dt2 = sh(["bash", "-c", f"ulimit -v {mem_kb}; exec \"$@\"", "x"] + cmd,
+        rc, out, dt2 = sh(["bash", "-c", f"ulimit -s unlimited 2>/dev/null; ulimit -v {mem_kb}; exec \"$@\"", "x"] + cmd,
                           timeout=tmo + 900, cwd=HARNESS_DIR)
         second = parse_kani(out).get(h["qual"])
         if second is None or second["status"] != "FAILED" or not second["failed"]:
